@@ -1,5 +1,5 @@
 (* C11 — the theorems, for the model instantiated with the regenerated table / reset_and_wait program / constants. *)
-From QT Require Import C11.Model C11.Spec C11.ListenForm C11.SafetyThm C11.SimThm C11.PromptThm C11.OrderThm C11.GenOk Gen.C11Gen.
+From QT Require Import C11.Model C11.Spec C11.ListenForm C11.SafetyThm C11.SimThm C11.PromptThm C11.OrderThm C11.EraseThm C11.GenOk Gen.C11Gen.
 From Coq Require Import Sorted.
 Open Scope Z_scope.
 
@@ -40,3 +40,56 @@ Lemma trigger_order_gen : forall cap sid tr, (1 <= cap)%nat ->
   StronglySorted lt (map e_id (List.concat (map o_evs
     (outputs_of tr sid (snd (run event_table reset_prog session_expiry_factor cap tr)))))).
 Proof. intros. rewrite exactly_once_gen by assumption. apply spec_trigger_order. Qed.
+
+(* ---- with event handling switched off and on (Disable / Enable in the history): the model carrying the _enabled flag *)
+Notation grun_gen cap tr := (grun event_table reset_prog session_expiry_factor cap tr).
+
+Lemma glevel_safety_gen : forall cap tr, level_safe event_table tr (snd (grun_gen cap tr)).
+Proof.
+  intros cap tr o e Ho He. destruct (grun_erase event_table reset_prog session_expiry_factor cap tr) as [E _].
+  rewrite E in Ho. destruct (level_safety_gen cap (erase true tr) o e Ho He) as [l [Hl Hle]].
+  exists l. split; auto. rewrite rid_level_erase in Hl. exact Hl.
+Qed.
+
+Lemma gexactly_once_gen : forall cap sid tr, (1 <= cap)%nat ->
+  outputs_of tr sid (snd (grun_gen cap tr)) = gspec_delivery event_table cap sid tr.
+Proof.
+  intros cap sid tr H. destruct (grun_erase event_table reset_prog session_expiry_factor cap tr) as [E _].
+  rewrite E, <- (outputs_of_erase tr true). apply exactly_once_gen. exact H.
+Qed.
+
+Lemma gtrigger_order_gen : forall cap sid tr, (1 <= cap)%nat ->
+  StronglySorted lt (map e_id (List.concat (map o_evs (outputs_of tr sid (snd (grun_gen cap tr)))))).
+Proof. intros. rewrite gexactly_once_gen by assumption. apply spec_trigger_order. Qed.
+
+Lemma gprompt_tick_gen : forall cap tr now x o,
+  grun_gen cap (tr ++ [Tick now]) = (x, o) -> Forall (fun y => settled now (snd y)) (snd x).
+Proof.
+  intros cap tr now x o H. destruct (grun_erase event_table reset_prog session_expiry_factor cap (tr ++ [Tick now])) as [_ E].
+  rewrite H in E. cbn [fst snd] in E. rewrite E, erase_snoc_tick.
+  destruct (run event_table reset_prog session_expiry_factor cap (erase true tr ++ [Tick now])) as [st o'] eqn:R.
+  cbn [fst]. eapply prompt_tick_gen. exact R.
+Qed.
+
+Lemma gprompt_listen_gen : forall cap tr sid level timeout now x o,
+  grun_gen cap (tr ++ [Listen sid level timeout now]) = (x, o) ->
+  exists s, lookup sid (snd x) = Some s /\ s_queue s = [] /\ s_level s = level.
+Proof.
+  intros cap tr sid level timeout now x o H.
+  destruct (grun_erase event_table reset_prog session_expiry_factor cap (tr ++ [Listen sid level timeout now])) as [_ E].
+  rewrite H in E. cbn [fst snd] in E. rewrite E, erase_snoc_listen.
+  destruct (run event_table reset_prog session_expiry_factor cap (erase true tr ++ [Listen sid level timeout now])) as [st o'] eqn:R.
+  cbn [fst]. eapply prompt_listen_gen. exact R.
+Qed.
+
+(* an event triggered while event handling is disabled is delivered to nobody *)
+Lemma suppressed_never_delivered : forall cap tr o e,
+  In o (snd (grun_gen cap tr)) -> In e (o_evs o) ->
+  forall cls obj, nth_error (erase true tr) (e_id e) = Some (Trigger cls obj) -> nth_error tr (e_id e) = Some (Trigger cls obj).
+Proof.
+  intros cap tr o e _ _ cls obj. generalize (e_id e) as n. generalize true as en. revert tr.
+  induction tr as [|x r IH]; intros en n H; [destruct n; discriminate|].
+  destruct n as [|n].
+  - destruct x; cbn in *; try destruct en; try discriminate; auto.
+  - destruct x; cbn in *; eapply IH; eauto.
+Qed.
